@@ -32,17 +32,26 @@ class Sym:
 
     def __init__(self, params):
         self.env = dict(params)           # python lvalue text -> Lean term
+        self.alias = {}                   # local name -> the lvalue it is another name for (`tags = self._tags`: no copy)
+
+    def root(self, key):
+        while key in self.alias:
+            key = self.alias[key]
+        return key
 
     def expr(self, e):
         if isinstance(e, ast.Name):
-            if e.id in self.env:
-                return self.env[e.id]
+            key = self.root(e.id)
+            if key in self.env:
+                return self.env[key]
             raise Unsupported('unknown name ' + e.id)
         if isinstance(e, ast.Attribute):
-            key = ast.unparse(e)
+            key = self.root(ast.unparse(e))
             if key in self.env:
                 return self.env[key]
             raise Unsupported('unknown attribute ' + key)
+        if isinstance(e, ast.Call) and isinstance(e.func, ast.Attribute) and e.func.attr == 'copy' and not e.args and not e.keywords:
+            return self.expr(e.func.value)        # x.copy(): the same value (sets are values in the model)
         if isinstance(e, ast.Subscript) and isinstance(e.slice, ast.Constant) and e.slice.value in (0, 1):
             return '(%s).%d' % (self.expr(e.value), e.slice.value + 1)
         if isinstance(e, ast.Call) and isinstance(e.func, ast.Name) and e.func.id == 'set' and len(e.args) <= 1:
@@ -74,12 +83,15 @@ class Sym:
                     if isinstance(v, ast.BoolOp) and isinstance(v.op, ast.Or) and ast.unparse(v.values[1]) == 'None':
                         v = v.values[0]
                     self.env['__out__'] = self.expr(v)
+                elif isinstance(t, ast.Name) and isinstance(st.value, (ast.Name, ast.Attribute)) and self.root(ast.unparse(st.value)) in self.env:
+                    self.alias[t.id] = self.root(ast.unparse(st.value))      # another name for the same (mutable) set
                 else:
+                    self.alias.pop(self.lvalue(t), None)
                     self.env[self.lvalue(t)] = self.expr(st.value)
                 continue
             if isinstance(st, ast.Expr) and isinstance(st.value, ast.Call) and isinstance(st.value.func, ast.Attribute):
                 meth = st.value.func.attr
-                target = self.lvalue(st.value.func.value)
+                target = self.root(self.lvalue(st.value.func.value))
                 if meth in ('update', 'difference_update') and target in self.env and len(st.value.args) == 1:
                     op = 'TagSet.union' if meth == 'update' else 'TagSet.diff'
                     self.env[target] = '(%s %s %s)' % (op, self.env[target], self.expr(st.value.args[0]))
